@@ -192,6 +192,9 @@ class Driver:
                 self.docs[path] = {"lines": None}
         elif method == "textDocument/didChange":
             d = self.docs.get(path)
+            if d is None and self.sched.get("strict_edits", True) and self.sched.get("require_open", False):
+                # a conforming client only changes documents it has opened
+                raise Invalid(f"op {k}: didChange for a document that is not open")
             if d is None or d["lines"] is None:
                 return
             changes = p.get("contentChanges")
@@ -254,6 +257,19 @@ class Driver:
                     v = repr(v)
                 vals[name] = sim.canon(v)
             self.obs.append({"what": "attrs", "values": vals})
+        elif what == "saved":
+            # precondition of C10/C15 comparisons: buffers equal files, every disk change announced
+            for path, dd in sorted(self.docs.items()):
+                if dd["lines"] is None:
+                    continue
+                if path not in self.world.files or \
+                        model.lines_from_disk(self.world.files[path]) != dd["lines"]:
+                    raise Invalid(f"open document {path} differs from the file on disk at the battery")
+            for path in sorted(set(self.told) | set(self.world.files)):
+                if path in self.docs:
+                    continue
+                if self.told.get(path) != self.world.files.get(path):
+                    raise Invalid(f"disk change of {path} was never announced to the server")
         elif what == "recursion":
             self.obs.append({"what": "recursion", "limit": sys.getrecursionlimit()})
         elif what == "uri_roundtrip":
